@@ -20,7 +20,8 @@ MANIFEST = {
             'covered.',
     'ref': '5 C02'}
 BOUNDS = {'quick': dict(ext_blocks='0..2 from {previous-node, age, hop-count, unknown}', eids='6 fixed EIDs',
-                        flags='7 flag sets incl. fragment and admin-record', crc='{0,1,2}'),
+                        flags='7 flag sets incl. fragment and admin-record', crc='{0,1,2}',
+                        admin='status report alone | next to prev+hop | next to an unknown block; about a whole bundle | about a fragment (symbolic offset from 0 and length)'),
           'thorough': dict(ext_blocks='0..3', eids='6 fixed EIDs', flags='12 flag sets', crc='all combinations')}
 ASSUMPTIONS = [
     'EIDs from a fixed list (text handling is concrete); uint fields in [0, 2^64)',
